@@ -156,7 +156,58 @@ def square(ctx):
                         ctx.violation('hash-of-equal', f'{PROP}:hash-of-equal', {'square': [li, lj], 'cfg': cfg}, '')
 
 
+class FlakyFactory:
+    """default_factory whose __hash__ raises while armed (an unhashable-then-hashable metadata object)."""
+
+    armed = False
+
+    def __call__(self):
+        return []
+
+    def __eq__(self, other):
+        return isinstance(other, FlakyFactory)
+
+    def __hash__(self):
+        if FlakyFactory.armed:
+            raise RuntimeError('hash failed')
+        return 11
+
+
+def hash_after_failure(ctx):
+    """a == b => hash(a) == hash(b) must survive a hash() call that raised: on the same treespec afterwards,
+    and on new treespecs that re-use its address."""
+    from collections import defaultdict  # noqa: PLC0415
+
+    from mc.universe import Leaf  # noqa: PLC0415
+
+    fac = FlakyFactory()
+    for round_ in range(60):
+        ctx.count()
+        ctx.cls(('hash-after-failure', round_ % 5))
+        t1 = [defaultdict(fac, {'k': Leaf(0)}), (Leaf(1), Leaf(2))][: 1 + round_ % 2]
+        s1 = optree.tree_structure(t1)
+        FlakyFactory.armed = True
+        r = outcome_of(lambda: hash(s1))
+        FlakyFactory.armed = False
+        if r != ('exc', 'RuntimeError'):
+            ctx.violation('hash-failure-not-propagated', f'{PROP}:hash-after-failure', {'round': round_}, repr(r))
+        twin = optree.tree_structure(t1)
+        if not (s1 == twin) or hash(s1) != hash(twin):
+            ctx.violation('hash-after-failure', f'{PROP}:hash-after-failure', {'round': round_, 'which': 'same object'},
+                          f'after a failed hash(): {s1!r} == twin but hash {hash(s1)} != {hash(twin)}')
+        del s1, twin
+        fresh = [optree.tree_structure((Leaf(3), [Leaf(4)] * (i % 3))) for i in range(12)]
+        ref = [optree.tree_structure((Leaf(3), [Leaf(4)] * (i % 3))) for i in range(12)]
+        for a, b in zip(fresh, ref):
+            if a == b and hash(a) != hash(b):
+                ctx.violation('hash-after-failure', f'{PROP}:hash-after-failure', {'round': round_, 'which': 'address reuse'},
+                              f'{a!r} == {b!r} but hash {hash(a)} != {hash(b)}')
+        ctx.outcome('hash-after-failure')
+
+
 def run_shard(ctx):
+    if ctx.shard == 0:
+        hash_after_failure(ctx)
     idx = 0
     for name, trees in e1.strata(ctx.tier, 'tiny'):
         for dsl in trees:
